@@ -213,6 +213,25 @@ func storeShape(root string) string {
 	getLocked := callInsideLockAndRun(findFunc(oapi, "StrictServerImpl", "getLocalTrust"), "c.Dim()")
 	setFd := findFunc(named, "NamedTrustMatrices", "Set")
 	setSwap := setFd != nil && containsCallPrefix(setFd.Body, "ntms.Swap(id,")
+	setAlone := false
+	if setFd != nil {
+		// exactly: tm = New…(c); _, loaded := ntms.Swap(id, tm); created = !loaded; return
+		setAlone = true
+		ast.Inspect(setFd.Body, func(x ast.Node) bool {
+			if a, ok := x.(*ast.AssignStmt); ok && len(a.Rhs) == 1 && strings.HasPrefix(exprStr(a.Rhs[0]), "ntms.Swap(") {
+				if exprStr(a.Lhs[0]) != "_" {
+					setAlone = false
+				}
+			}
+			if c, ok := x.(*ast.CallExpr); ok {
+				cs := exprStr(c)
+				if strings.Contains(cs, "LockAndRun") || strings.Contains(cs, "Reset(") || strings.Contains(cs, "Munmap(") {
+					setAlone = false
+				}
+			}
+			return true
+		})
+	}
 	mergeFd := findFunc(named, "NamedTrustMatrices", "Merge")
 	mergeOK := mergeFd != nil && containsCallPrefix(mergeFd.Body, "ntms.LoadOrStore(id,") &&
 		callInsideLockAndRun(mergeFd, "c2.Merge(")
@@ -263,7 +282,7 @@ func storeShape(root string) string {
 	}
 	return record("storeShape", "StoreShape", []kv{
 		{"loadStoredDeepCopiesUnderLock", lb(loadStored)}, {"getReadsUnderLock", lb(getLocked)},
-		{"setUsesSwap", lb(setSwap)}, {"mergeLoadOrStoreThenLockedMerge", lb(mergeOK)},
+		{"setUsesSwap", lb(setSwap)}, {"setLeavesPreviousAlone", lb(setAlone)}, {"mergeLoadOrStoreThenLockedMerge", lb(mergeOK)},
 		{"deleteUsesLoadAndDelete", lb(delOK)}, {"updateAnswers400", lb(upd400)},
 		{"grpcDeepCopiesInputs", lb(deep)}, {"grpcTimestampOnlyAdvances", lb(tsOK)},
 	})
